@@ -78,16 +78,25 @@ Has(d) == d \in Dev
 
 JobId(S, j) == 3 * Len(S.wins) + j
 
+\* The event heap: a sequence of entries <<t, id, kind, a, b>> kept sorted by <<t, id>>
+\* (id = creation order = Event._sort_index), earliest first.
+Lt(x, y) == x[1] < y[1] \/ (x[1] = y[1] /\ x[2] < y[2])
+RECURSIVE InsPos(_, _, _)
+InsPos(h, x, i) == IF i = 0 THEN 0 ELSE IF Lt(h[i], x) THEN i ELSE InsPos(h, x, i - 1)
+Ins(h, x) == LET i == InsPos(h, x, Len(h)) IN SubSeq(h, 1, i) \o <<x>> \o SubSeq(h, i + 1, Len(h))
+
 InitM(S) ==
     LET nw == Len(S.wins)  nj == Len(S.jobs)  np == Len(S.probes)  nh == Len(S.holds)
-        ev(id, t, k, a) == [id |-> id, t |-> t, k |-> k, a |-> a, b |-> 0]
-        fon  == { ev(2 * w - 1, S.wins[w].s, "fon", w) : w \in 1..nw }
-        foff == { ev(2 * w, S.wins[w].e, "foff", w) : w \in { v \in 1..nw : S.wins[v].e # Inf } }
-        can  == { ev(2 * nw + w, S.wins[w].ct, "cancel", w) : w \in { v \in 1..nw : S.wins[v].cm = 3 } }
-        jb   == { ev(3 * nw + j, S.jobs[j].t, "job", j) : j \in 1..nj }
-        pb   == { ev(3 * nw + nj + p, S.probes[p].t, "obs", p) : p \in 1..np }
-        hd   == { ev(3 * nw + nj + np + h, S.holds[h].t, "acq", h) : h \in 1..nh }
-    IN [ heap |-> fon \cup foff \cup can \cup jb \cup pb \cup hd,
+        ev(id, t, k, a) == <<t, id, k, a, 0>>
+        keep(e) == e[1] # Inf
+        fon  == [w \in 1..nw |-> ev(2 * w - 1, S.wins[w].s, "fon", w)]
+        foff == SelectSeq([w \in 1..nw |-> ev(2 * w, S.wins[w].e, "foff", w)], keep)
+        can  == SelectSeq([w \in 1..nw |-> ev(2 * nw + w, IF S.wins[w].cm = 3 THEN S.wins[w].ct ELSE Inf,
+                                               "cancel", w)], keep)
+        jb   == [j \in 1..nj |-> ev(3 * nw + j, S.jobs[j].t, "job", j)]
+        pb   == [p \in 1..np |-> ev(3 * nw + nj + p, S.probes[p].t, "obs", p)]
+        hd   == [h \in 1..nh |-> ev(3 * nw + nj + np + h, S.holds[h].t, "acq", h)]
+    IN [ heap |-> SortSeq(fon \o foff \o can \o jb \o pb \o hd, Lt),
          ctr |-> 3 * nw + nj + np + nh, clock |-> 0,
          wcan |-> [w \in 1..nw |-> S.wins[w].cm = 2
                                    \/ (S.wins[w].cm = 1 /\ ~Has("cancel_before_start_ineffective"))],
@@ -105,10 +114,8 @@ InitM(S) ==
          msgs |-> <<>>,                             \* <<p, t>> probe message p reached its receiver
          hlog |-> <<>> ]                            \* <<h, what, t>> 0 none, 1 got, 2 released, 3 release raised
 
-Push(mm, t, k, a, b) ==
-    [mm EXCEPT !.heap = @ \cup {[id |-> mm.ctr + 1, t |-> t, k |-> k, a |-> a, b |-> b]}, !.ctr = @ + 1]
-PushId(mm, id, t, k, a, b) ==
-    [mm EXCEPT !.heap = @ \cup {[id |-> id, t |-> t, k |-> k, a |-> a, b |-> b]}]
+Push(mm, t, k, a, b) == [mm EXCEPT !.heap = Ins(@, <<t, mm.ctr + 1, k, a, b>>), !.ctr = @ + 1]
+PushId(mm, id, t, k, a, b) == [mm EXCEPT !.heap = Ins(@, <<t, id, k, a, b>>)]
 
 \* ---- fault activation / deactivation closures --------------------------------
 SymPairs(w) == LET g == sch.groups[Win(w).tg[1]] IN { {x, y} : x \in Range(g.a), y \in Range(g.b) }
@@ -193,11 +200,11 @@ ContDropped(mm, e) ==
     /\ ~Has("continuation_ignores_crash")
     /\ (e = Q => ~Has("queued_worker_ignores_crash"))
 
-Min(S) == CHOOSE x \in S : \A y \in S : x.t < y.t \/ (x.t = y.t /\ x.id <= y.id)
 
-Step(mm, e) ==
-    LET m0 == [mm EXCEPT !.heap = @ \ {e}, !.clock = e.t]
-        now == e.t
+Step(mm, ev) ==
+    LET m0 == [mm EXCEPT !.heap = Tail(@), !.clock = ev[1]]
+        now == ev[1]
+        e == [k |-> ev[3], a |-> ev[4], b |-> ev[5]]
     IN CASE e.k = "fon" -> IF mm.wcan[e.a] THEN m0 ELSE Activate(m0, e.a)
          [] e.k = "foff" -> IF mm.wcan[e.a] THEN m0 ELSE Deactivate(m0, e.a)
          [] e.k = "cancel" -> [m0 EXCEPT !.wcan[e.a] = TRUE]
@@ -250,11 +257,11 @@ Step(mm, e) ==
               ELSE [m0 EXCEPT !.held = @ - h.a, !.avail = Max0(mm.cap - (mm.held - h.a)),
                               !.hlog = Append(@, <<e.a, 2, now>>)]
 
-Pop == /\ m.heap # {}
-       /\ Min(m.heap).t <= sch.H
-       /\ m' = Step(m, Min(m.heap))
+Pop == /\ m.heap # <<>>
+       /\ Head(m.heap)[1] <= sch.H
+       /\ m' = Step(m, Head(m.heap))
        /\ UNCHANGED sch
-Done(mm) == mm.heap = {} \/ Min(mm.heap).t > sch.H
+Done(mm) == mm.heap = <<>> \/ Head(mm.heap)[1] > sch.H
 
 \* ===========================================================================
 \* Contract C06 over the observation logs L = [act, snk, obs, msgs, hlog] of a finished run
@@ -280,32 +287,35 @@ SumTo(ds, i) == IF i = 0 THEN 0 ELSE ds[i] + SumTo(ds, i - 1)
 PT(j, i) == Job(j).t + SumTo(Job(j).ds, i)      \* planned instant of segment i of job j
 
 \* (a) a crashed / paused entity executes nothing: no handler, no process step, no emission
-QuietBadAct(L) == { n \in 1..Len(L.act) : SomeStrict(CrashWins(L.act[n][1]), L.act[n][4]) }
-QuietBadSnk(L) == { n \in 1..Len(L.snk) : SomeStrict(CrashWins(L.snk[n][1]), L.snk[n][4]) }
-QuietBadMsg(L) == { n \in 1..Len(L.msgs) :
-                      SomeStrict(CrashWins(sch.probes[L.msgs[n][1]].y), L.msgs[n][2]) }
+CrashTab == [e \in EntDom |-> CrashWins(e)]
+QuietBadAct(L) == LET cw == CrashTab IN { n \in 1..Len(L.act) : SomeStrict(cw[L.act[n][1]], L.act[n][4]) }
+QuietBadSnk(L) == LET cw == CrashTab IN { n \in 1..Len(L.snk) : SomeStrict(cw[L.snk[n][1]], L.snk[n][4]) }
+QuietBadMsg(L) == LET cw == CrashTab IN
+                  { n \in 1..Len(L.msgs) : SomeStrict(cw[sch.probes[L.msgs[n][1]].y], L.msgs[n][2]) }
 CrashQuiet(L) == QuietBadAct(L) = {} /\ QuietBadSnk(L) = {} /\ QuietBadMsg(L) = {}
 
 \* (b) processing outside the windows is what it is without faults; bystanders are unaffected.
 \* Every logged activity is a planned one (right job, right instant, at most once) ...
 Planned(it) == /\ it[2] \in 1..NJ /\ Job(it[2]).e = it[1] /\ it[3] \in 0..Len(Job(it[2]).ds)
                /\ (it[1] # Q => it[4] = PT(it[2], it[3]))
-               /\ (it[1] = Q => it[4] >= Job(it[2]).t + SumTo(Job(it[2]).ds, it[3]))
-NoDup(s) == \A a, b \in 1..Len(s) : (a # b) => (s[a][1] # s[b][1] \/ s[a][2] # s[b][2] \/ s[a][3] # s[b][3])
+               /\ (it[1] = Q => it[4] >= PT(it[2], it[3]))
+NoDup(s) == Cardinality({ <<s[n][1], s[n][2], s[n][3]>> : n \in 1..Len(s) }) = Len(s)
 SpuriousAct(L) == { n \in 1..Len(L.act) : ~Planned(L.act[n]) }
 SpuriousSnk(L) == { n \in 1..Len(L.snk) : ~(Planned(L.snk[n]) /\ Job(L.snk[n][2]).em[L.snk[n][3] + 1] = 1) }
 \* ... and every planned segment whose whole history lies outside the windows of its entity ran
 \* (plain nodes: no window touches [start of the job, planned instant]; Q: the job arrives after
 \* the last window of Q has ended, service times depend on the queue)
-Demanded(j, i) ==
+DemandedIn(cw, j, i) ==
     LET e == Job(j).e IN
-    IF e = Q THEN \A w \in CrashWins(Q) : Win(w).e < Job(j).t
-    ELSE \A w \in CrashWins(e) : ~(Win(w).s <= PT(j, i) /\ Win(w).e >= Job(j).t)
-Segs == { <<j, i>> \in (1..NJ) \X (0..8) : i <= Len(Job(j).ds) }
-Ran(L, j, i) == \E n \in 1..Len(L.act) : L.act[n][2] = j /\ L.act[n][3] = i
-Emitted(L, j, i) == \E n \in 1..Len(L.snk) : L.snk[n][2] = j /\ L.snk[n][3] = i
-MissingAct(L) == { s \in Segs : Demanded(s[1], s[2]) /\ ~Ran(L, s[1], s[2]) }
-MissingSnk(L) == { s \in Segs : Demanded(s[1], s[2]) /\ Job(s[1]).em[s[2] + 1] = 1 /\ ~Emitted(L, s[1], s[2]) }
+    IF e = Q THEN \A w \in cw[Q] : Win(w).e < Job(j).t
+    ELSE cw[e] = {} \/ \A w \in cw[e] : ~(Win(w).s <= PT(j, i) /\ Win(w).e >= Job(j).t)
+Demanded(j, i) == DemandedIn(CrashTab, j, i)
+Segs == UNION { { <<j, i>> : i \in 0..Len(Job(j).ds) } : j \in 1..NJ }
+JI(s) == { <<s[n][2], s[n][3]>> : n \in 1..Len(s) }
+MissingAct(L) == LET ran == JI(L.act)  cw == CrashTab IN
+                 { s \in Segs : s \notin ran /\ DemandedIn(cw, s[1], s[2]) }
+MissingSnk(L) == LET ems == JI(L.snk)  cw == CrashTab IN
+                 { s \in Segs : Job(s[1]).em[s[2] + 1] = 1 /\ s \notin ems /\ DemandedIn(cw, s[1], s[2]) }
 Unaffected(L) == SpuriousAct(L) = {} /\ SpuriousSnk(L) = {} /\ NoDup(L.act) /\ NoDup(L.snk)
 Resumes(L) == MissingAct(L) = {} /\ MissingSnk(L) = {}
 
@@ -313,41 +323,59 @@ Resumes(L) == MissingAct(L) = {} /\ MissingSnk(L) = {}
 \* is open: strictly inside some window => in effect; outside every (closed) window => not
 EffBad(ws, t, on) == (SomeStrict(ws, t) /\ ~on) \/ (~SomeWeak(ws, t) /\ on)
 ObsLink(L) == { n \in 1..Len(L.obs) : L.obs[n][2] # 0 }
-PartBad(L) == { n \in ObsLink(L) : EffBad(PartWins(L.obs[n][2], L.obs[n][3]), L.obs[n][1], L.obs[n][4] = 1) }
-LossBad(L) == { n \in ObsLink(L) : EffBad(LinkWins("loss", L.obs[n][2], L.obs[n][3]), L.obs[n][1], L.obs[n][5] = 1) }
-LatBad(L)  == { n \in ObsLink(L) : EffBad(LinkWins("lat", L.obs[n][2], L.obs[n][3]), L.obs[n][1], L.obs[n][6] = 1) }
-CapBad(L)  == { n \in 1..Len(L.obs) : EffBad(CapWs, L.obs[n][1], L.obs[n][7] < sch.C) }
+ObsPairs(L) == { <<L.obs[n][2], L.obs[n][3]>> : n \in ObsLink(L) }
+PairOf(o) == <<o[2], o[3]>>
+PartBad(L) == LET tab == [pr \in ObsPairs(L) |-> PartWins(pr[1], pr[2])] IN
+              { n \in ObsLink(L) : EffBad(tab[PairOf(L.obs[n])], L.obs[n][1], L.obs[n][4] = 1) }
+LossBad(L) == LET tab == [pr \in ObsPairs(L) |-> LinkWins("loss", pr[1], pr[2])] IN
+              { n \in ObsLink(L) : EffBad(tab[PairOf(L.obs[n])], L.obs[n][1], L.obs[n][5] = 1) }
+LatBad(L)  == LET tab == [pr \in ObsPairs(L) |-> LinkWins("lat", pr[1], pr[2])] IN
+              { n \in ObsLink(L) : EffBad(tab[PairOf(L.obs[n])], L.obs[n][1], L.obs[n][6] = 1) }
+CapBad(L)  == LET cw == CapWs IN { n \in 1..Len(L.obs) : EffBad(cw, L.obs[n][1], L.obs[n][7] < sch.C) }
 \* the same on the probe traffic itself: dropped while partitioned / lossy, delivered (once) when
 \* nothing covers the pair and the receiver is never crashed, delayed iff a latency window is open
-Deliveries(L, p) == { n \in 1..Len(L.msgs) : L.msgs[n][1] = p }
+Senders == { p \in 1..NP : sch.probes[p].x # 0 }
+SendPairs == { <<sch.probes[p].x, sch.probes[p].y>> : p \in Senders }
 NoCrashAtAll(e) == \A w \in 1..NW : ~(IsCrashK(Win(w).k) /\ Win(w).tg[1] = e)
-MsgBad(L) ==
-    { p \in { q \in 1..NP : sch.probes[q].x # 0 } :
-        LET P == sch.probes[p]
-            pw == PartWins(P.x, P.y)  lw == LinkWins("loss", P.x, P.y)  dw == LinkWins("lat", P.x, P.y)
-            D == Deliveries(L, p)
-        IN \/ (SomeStrict(pw, P.t) \/ SomeStrict(lw, P.t)) /\ D # {}
-           \/ ~SomeWeak(pw, P.t) /\ ~SomeWeak(lw, P.t) /\ NoCrashAtAll(P.y) /\ Cardinality(D) # 1
-           \/ \E n \in D : LET dly == L.msgs[n][2] - P.t IN
-                  \/ SomeStrict(dw, P.t) /\ dly <= sch.L0
-                  \/ ~SomeWeak(dw, P.t) /\ dly # sch.L0 }
+Delivered(L) == { L.msgs[n][1] : n \in 1..Len(L.msgs) }
+\* probes whose message must not / must arrive but did / did not
+MsgFateBad(L) ==
+    LET dl == Delivered(L)
+        pt == [pr \in SendPairs |-> PartWins(pr[1], pr[2])]
+        lt == [pr \in SendPairs |-> LinkWins("loss", pr[1], pr[2])]
+        nc == [pr \in SendPairs |-> NoCrashAtAll(pr[2])]
+    IN { p \in Senders :
+           LET P == sch.probes[p]  pr == <<P.x, P.y>> IN
+           \/ p \in dl /\ (SomeStrict(pt[pr], P.t) \/ SomeStrict(lt[pr], P.t))
+           \/ p \notin dl /\ nc[pr] /\ ~SomeWeak(pt[pr], P.t) /\ ~SomeWeak(lt[pr], P.t) }
+\* deliveries (positions in msgs) that are a second copy, or whose delay contradicts the latency windows
+MsgDup(L) == Cardinality(Delivered(L)) # Len(L.msgs)
+MsgDelayBad(L) ==
+    LET dt == [pr \in SendPairs |-> LinkWins("lat", pr[1], pr[2])] IN
+    { n \in 1..Len(L.msgs) :
+        LET P == sch.probes[L.msgs[n][1]]  dw == dt[<<P.x, P.y>>]  dly == L.msgs[n][2] - P.t IN
+        \/ SomeStrict(dw, P.t) /\ dly <= sch.L0
+        \/ ~SomeWeak(dw, P.t) /\ dly # sch.L0 }
+Traffic(L) == MsgFateBad(L) = {} /\ ~MsgDup(L) /\ MsgDelayBad(L) = {}
 
 \* (d) once every window has ended the system is back to its configured state
-AllEnded(t) == \A w \in 1..NW : Live(w) => Win(w).e < t
-EndBad(L) == { n \in 1..Len(L.obs) :
-                 AllEnded(L.obs[n][1]) /\ ~(L.obs[n][7] = sch.C /\ L.obs[n][8] + L.obs[n][9] = sch.C) }
+LastEnd == LET es == { Win(w).e : w \in { v \in 1..NW : Live(v) } } IN IF es = {} THEN -1 ELSE MaxOf(es)
+EndBad(L) == LET le == LastEnd IN
+             { n \in 1..Len(L.obs) :
+                 le < L.obs[n][1] /\ ~(L.obs[n][7] = sch.C /\ L.obs[n][8] + L.obs[n][9] = sch.C) }
 
 \* ---- invariants of the model-checking mode (contract on the model's own logs) ----
 ML == [act |-> m.act, snk |-> m.snk, obs |-> m.obs, msgs |-> m.msgs, hlog |-> m.hlog]
-InvCrashQuiet == CrashQuiet(ML)
-InvUnaffected == Unaffected(ML)
+\* (the logs only grow, so a clause false at any point is false at the end of the run)
+InvCrashQuiet == Done(m) => CrashQuiet(ML)
+InvUnaffected == Done(m) => Unaffected(ML)
 InvResumes == Done(m) => Resumes(ML)
-InvPartition == PartBad(ML) = {}
-InvLoss == LossBad(ML) = {}
-InvLatency == LatBad(ML) = {}
-InvCapacity == CapBad(ML) = {}
-InvTraffic == Done(m) => MsgBad(ML) = {}
-InvEndState == EndBad(ML) = {}
+InvPartition == Done(m) => PartBad(ML) = {}
+InvLoss == Done(m) => LossBad(ML) = {}
+InvLatency == Done(m) => LatBad(ML) = {}
+InvCapacity == Done(m) => CapBad(ML) = {}
+InvTraffic == Done(m) => Traffic(ML)
+InvEndState == Done(m) => EndBad(ML) = {}
 
 Next == Pop
 =============================================================================
